@@ -217,6 +217,37 @@ func c15Exec(x *Ctx) {
 						x.Violate("g4-too-small", "a directory read with count %d, smaller than the first entry (%d bytes), was answered with %d bytes instead of an error", small, sizes[0], len(r.M.Data))
 					}
 					x.Probe("count-too-small")
+					// the same in the middle of the listing: read up to entry k, then offer less than entry k needs
+					k := (sel / 7) % len(sizes)
+					prefix := 0
+					for _, sz := range sizes[:k] {
+						prefix += sz
+					}
+					off := 0
+					for off < prefix {
+						cnt := minInt(maxc, prefix-off)
+						r := p.Call(&Msg{Type: Tread, Tag: 10, Fid: 1, Offset: uint64(off), Count: uint32(cnt)})
+						if r == nil || r.M == nil || r.M.Type != Rread || len(r.M.Data) == 0 || len(r.M.Data) > cnt {
+							x.Violate("g1-error", "directory read at offset %d with count %d (the entries up to there take %d bytes) failed or returned nothing", off, cnt, prefix)
+							return
+						}
+						off += len(r.M.Data)
+					}
+					if k > 0 {
+						small := sizes[k] - 1 - (sel/3)%sizes[k]
+						r := p.Call(&Msg{Type: Tread, Tag: 11, Fid: 1, Offset: uint64(off), Count: uint32(small)})
+						if r == nil || r.M == nil {
+							x.Violate("g4-too-small", "no reply to a directory read with count %d at offset %d", small, off)
+						} else if r.M.Type != Rerror {
+							x.Violate("g4-too-small", "a directory read at offset %d (entry %d of %d) with count %d, smaller than that entry (%d bytes), was answered with %d bytes instead of an error", off, k, len(sizes), small, sizes[k], len(r.M.Data))
+						}
+						x.Probe("count-too-small-mid-listing")
+						// and the listing can go on from there
+						r = p.Call(&Msg{Type: Tread, Tag: 12, Fid: 1, Offset: uint64(off), Count: uint32(sizes[k])})
+						if r == nil || r.M == nil || r.M.Type != Rread || len(r.M.Data) != sizes[k] {
+							x.Violate("g1-error", "after a refused too-small read, a read at the same offset %d with exactly the entry's size %d did not return that entry", off, sizes[k])
+						}
+					}
 				}
 			}
 			finished = true
